@@ -95,7 +95,7 @@ def cfgs(tier):
         yield 'FixedPointSub %s' % nm, addsub(FixedPointSub, fmt, lambda a, b: a - b)
         yield 'FixedPointSign %s' % nm, sign(fmt)
         yield 'FixedPointComparator %s' % nm, cmp_(fmt)
-    for af, bf, rf in (((1, 7, 8), (1, 7, 8), (1, 7, 8)), ((1, 7, 8), (1, 7, 8), (1, 15, 16))):      # mixed 16-bit formats: probed, the second evaluation does not finish in the budget
+    for af, bf, rf in (() if quick else (((1, 7, 8), (1, 7, 8), (1, 7, 8)), ((1, 7, 8), (1, 7, 8), (1, 15, 16)))):      # mixed 16-bit formats: probed, the second evaluation does not finish in the budget
         yield 'FixedPointMult %d.%d.%d x %d.%d.%d -> %d.%d.%d' % (af + bf + rf), mult(af, bf, rf)
     fl = list(formats(6 if quick else 8))
     import random
